@@ -1,11 +1,17 @@
 //! Verification seam (compiled only with `--cfg yui_verif`): scheduling points that a model
 //! checker can intercept.  With nothing installed every call is a no-op.
+//!
+//! `verif::sync::{RwLock, Mutex}` are thin wrappers around the `std::sync` locks that announce a
+//! scheduling point immediately before every acquisition; the parallel kernels import them
+//! instead of the `std` types when built with `--cfg yui_verif` (the loom convention), so every
+//! acquisition of a shared lock - including ones added by later changes - is visible to the checker.
 
+use std::panic::Location;
 use std::sync::OnceLock;
 
-/// `label` names the program point; `ready`, when given, tells whether the lock acquisition
-/// that follows the point would succeed right now.
-pub type PointFn = fn(label: &'static str, ready: Option<&dyn Fn() -> bool>);
+/// `label` names the kind of point, `loc` the calling source line; `ready`, when given, tells
+/// whether the lock acquisition that follows the point would succeed right now.
+pub type PointFn = fn(label: &'static str, loc: &'static Location<'static>, ready: Option<&dyn Fn() -> bool>);
 
 static HOOK: OnceLock<PointFn> = OnceLock::new();
 
@@ -14,8 +20,70 @@ pub fn install(f: PointFn) {
 }
 
 #[inline]
+#[track_caller]
 pub fn point(label: &'static str, ready: Option<&dyn Fn() -> bool>) {
     if let Some(f) = HOOK.get() {
-        f(label, ready)
+        f(label, Location::caller(), ready)
+    }
+}
+
+pub mod sync {
+    use std::sync::{LockResult, MutexGuard, RwLockReadGuard, RwLockWriteGuard, TryLockError, TryLockResult};
+    use super::point;
+
+    #[derive(Debug, Default)]
+    pub struct RwLock<T>(std::sync::RwLock<T>);
+
+    impl<T> RwLock<T> {
+        pub fn new(t: T) -> Self {
+            Self(std::sync::RwLock::new(t))
+        }
+
+        #[track_caller]
+        pub fn read(&self) -> LockResult<RwLockReadGuard<'_, T>> {
+            point("rwlock.read", Some(&|| !matches!(self.0.try_read(), Err(TryLockError::WouldBlock))));
+            self.0.read()
+        }
+
+        #[track_caller]
+        pub fn write(&self) -> LockResult<RwLockWriteGuard<'_, T>> {
+            point("rwlock.write", Some(&|| !matches!(self.0.try_write(), Err(TryLockError::WouldBlock))));
+            self.0.write()
+        }
+
+        pub fn try_read(&self) -> TryLockResult<RwLockReadGuard<'_, T>> {
+            self.0.try_read()
+        }
+
+        pub fn try_write(&self) -> TryLockResult<RwLockWriteGuard<'_, T>> {
+            self.0.try_write()
+        }
+
+        pub fn into_inner(self) -> LockResult<T> {
+            self.0.into_inner()
+        }
+    }
+
+    #[derive(Debug, Default)]
+    pub struct Mutex<T>(std::sync::Mutex<T>);
+
+    impl<T> Mutex<T> {
+        pub fn new(t: T) -> Self {
+            Self(std::sync::Mutex::new(t))
+        }
+
+        #[track_caller]
+        pub fn lock(&self) -> LockResult<MutexGuard<'_, T>> {
+            point("mutex.lock", Some(&|| !matches!(self.0.try_lock(), Err(TryLockError::WouldBlock))));
+            self.0.lock()
+        }
+
+        pub fn try_lock(&self) -> TryLockResult<MutexGuard<'_, T>> {
+            self.0.try_lock()
+        }
+
+        pub fn into_inner(self) -> LockResult<T> {
+            self.0.into_inner()
+        }
     }
 }
